@@ -27,6 +27,25 @@ theorem dataRange_eq (a n : Nat) :
   unfold dataRange checkedAdd
   by_cases h : a + n < USZ <;> simp [h]
 
+/-- **The range a section header designates is `[sh_offset, sh_offset + sh_size)`** — `SectionHeader::get_data_range`
+    as translated from /repo on this run (`Gen.acc_SectionHeader_get_data_range`; its parameter list says it reads
+    `sh_offset` and `sh_size` and nothing else) is the model's `dataRange` of those two fields. -/
+theorem section_range_is_offset_size (sh : SectionHeader) (ho : sh.sh_offset < USZ) (hs : sh.sh_size < USZ) :
+    Gen.acc_SectionHeader_get_data_range (sh_offset := sh.sh_offset) (sh_size := sh.sh_size) =
+      dataRange sh.sh_offset sh.sh_size := by
+  unfold Gen.acc_SectionHeader_get_data_range tryIntoUsize dataRange
+  simp only [ho, hs, if_true, Out.bind]
+  cases checkedAdd sh.sh_offset sh.sh_size <;> rfl
+
+/-- **The range a program header designates in the file is `[p_offset, p_offset + p_filesz)`** — `p_memsz`, the size
+    in memory, is not a parameter of the translated `ProgramHeader::get_file_data_range`. -/
+theorem segment_range_is_offset_filesz (ph : ProgramHeader) (ho : ph.p_offset < USZ) (hs : ph.p_filesz < USZ) :
+    Gen.acc_ProgramHeader_get_file_data_range (p_offset := ph.p_offset) (p_filesz := ph.p_filesz) =
+      dataRange ph.p_offset ph.p_filesz := by
+  unfold Gen.acc_ProgramHeader_get_file_data_range tryIntoUsize dataRange
+  simp only [ho, hs, if_true, Out.bind]
+  cases checkedAdd ph.p_offset ph.p_filesz <;> rfl
+
 /-- **SHT_NOBITS sections yield the empty slice.** -/
 theorem section_data_nobits (f : ElfBytes) (sh : SectionHeader) (h : sh.sh_type = Abi.SHT_NOBITS) :
     f.sectionData sh = .ok (Slice.empty, none) := by
